@@ -113,7 +113,16 @@ MonC02(S) ==
   LET ds == Delivered(S, 0)
       xs == ExpectedFrom(S, StartPos(S))
       lock == Scen(S).attempts[1].pacing = "lockstep"
+      rr == Lines(S, "reread")
   IN SeqFails("C02.grouping", S, ds, xs, FALSE) \cup
+     \* the changes of a delivered transaction stay where they were delivered (re-read after the stream ended)
+     UNION {LET d == SelectSeq(ds, LAMBDA x : x.gk = rr[i].gk) IN
+            IF Len(d) = 1 /\ (Len(rr[i].evs) # Len(d[1].evs) \/ \E j \in 1..Min2(Len(rr[i].evs), Len(d[1].evs)) :
+                                 rr[i].evs[j].typ # d[1].evs[j].typ \/ rr[i].evs[j].tbl # d[1].evs[j].tbl \/ rr[i].evs[j].sql # d[1].evs[j].sql
+                                 \/ rr[i].evs[j].ts # d[1].evs[j].ts \/ Len(rr[i].evs[j].vals) # Len(d[1].evs[j].vals) \/ Len(rr[i].evs[j].ids) # Len(d[1].evs[j].ids))
+            THEN {F("C02.grouping-stable", S, [what |-> "changes of a delivered transaction changed / moved after delivery", got |-> 0, want |-> 0, k |-> d[1].k + 1, c |-> 0, typ |-> 0])}
+            ELSE {}
+            : i \in 1..Len(rr)} \cup
      (IF ~lock THEN {}
       ELSE UNION {
         \* packets of the served stream up to and including the commit event of transaction k: the two
@@ -227,9 +236,12 @@ MonC07(S) ==
         sp   == SetPosFor(S, a)
     IN IF Len(cmds) = 0 THEN {}      \* no connection was established in this attempt
        ELSE
-        (IF Len(cmds) = 2 /\ cmds[1].kind = "query" /\ cmds[2].kind = "dump" THEN {}
-         ELSE {Z("C07.sequence", S, "commands are not exactly <<SET query, one dump request>>", a, Len(cmds))}) \cup
-        (IF \E i \in 1..Len(cmds) : cmds[i].kind = "query" /\ Contains(LowerSeq(cmds[i].sql), WChecksum)
+        (IF \/ (Len(cmds) = 2 /\ cmds[1].kind = "query" /\ cmds[2].kind = "dump")
+            \/ (Len(cmds) = 1 /\ cmds[1].kind = "query" /\ ~cmds[1].ok)       \* the SET was rejected: nothing may follow
+         THEN {} ELSE {Z("C07.sequence", S, "commands are not exactly <<SET query, one dump request>>", a, Len(cmds))}) \cup
+        (IF \E i \in 1..Len(cmds) : cmds[i].kind = "query" /\ ~cmds[i].ok /\ \E j \in 1..Len(cmds) : j > i /\ cmds[j].kind = "dump"
+         THEN {Z("C07.checksum-first", S, "dump requested although SET @master_binlog_checksum was rejected by the master", a, 0)} ELSE {}) \cup
+        (IF Len(cmds) = 1 \/ \E i \in 1..Len(cmds) : cmds[i].kind = "query" /\ Contains(LowerSeq(cmds[i].sql), WChecksum)
                                      /\ Take(LowerSeq(cmds[i].sql), 3) = WSet
                                      /\ \A j \in 1..Len(cmds) : cmds[j].kind = "dump" => i < j
          THEN {} ELSE {Z("C07.checksum-first", S, "no SET @master_binlog_checksum before the dump request", a, 0)}) \cup
@@ -292,7 +304,7 @@ MonC05(S) ==
         retIdx == IF Len(ret) = 1 THEN IndexOfLine(S, LAMBDA x : x.ev = "streamReturn" /\ x.att = a) ELSE 0
     IN (IF Len(ret) = 1 /\ ret[1].returned THEN {} ELSE {Z("C05.stream-returns", S, "Stream did not return within bounded time", a, 0)}) \cup
        {Z("C05.error-returns", S, "Error() did not return (blocked)", a, ers[i].call) : i \in {j \in 1..Len(ers) : ~ers[j].returned}} \cup
-       (IF Len(ers) = 0 THEN {Z("C05.error-returns", S, "Error() was never observed to return", a, 0)} ELSE {}) \cup
+       (IF Len(ers) = 0 /\ ~Plan(S, a).skipError THEN {Z("C05.error-returns", S, "Error() was never observed to return", a, 0)} ELSE {}) \cup
        (IF Len(sk) = 1 /\ Len(cmds) > 0 /\ ~sk[1].masterEnded /\ ~sk[1].peerClosed
         THEN {Z("C05.connection-closed", S, "connection to the master still open after Stream returned", a, 0)} ELSE {}) \cup
        (IF Len(gr) = 1 /\ gr[1].n > 0 THEN {Z("C05.no-goroutine-left", S, "library goroutine remains after Stream returned", a, gr[1].n)} ELSE {}) \cup
@@ -397,7 +409,14 @@ MonC15(S) ==
         THEN {Z("C15.mismatch-rejected", S, "a mapper table with another column count did not end the stream with an error", a, 0)} ELSE {}) \cup
        (IF mismatched /\ Len(at) = 1 /\ at[1].nbefore >= 0 /\ Len(ds) # at[1].nbefore
         THEN {Z("C15.mismatch-rejected", S, "transactions delivered although the mapper's table mismatched", Len(ds), at[1].nbefore)} ELSE {})
-    : a \in 0..(NAttempts(S) - 1)}
+    : a \in 0..(NAttempts(S) - 1)} \cup
+  \* a table re-announced under the same id and name with another column count than the mapper's table: error, no delivery
+  (IF Scen(S).rejectAfter < 0 THEN {}
+   ELSE LET ret == StreamRet(S, 0)  ds == Delivered(S, 0) IN
+        (IF Len(ret) = 1 /\ ret[1].returned /\ ~ret[1].res.nil THEN {}
+         ELSE {Z("C15.mismatch-rejected", S, "rows of a table map whose column count disagrees with the mapper's table did not end the stream with an error", 0, 0)}) \cup
+        (IF Len(ds) = Scen(S).rejectAfter THEN {}
+         ELSE {Z("C15.mismatch-rejected", S, "transactions delivered although the table map's column count disagrees with the mapper's table", Len(ds), Scen(S).rejectAfter)}))
 
 (***************************************************************************)
 (* Dispatch and the replay state machine.                                  *)
